@@ -668,7 +668,7 @@ Fixpoint chk (s : an_state) (k : nat) (l : list (nat * nat * list Z * Z * Z)) : 
   end.
 Definition ok (c : option an_state * nat * list (nat * nat * list Z * Z * Z)) : bool :=
   match c with
-  | (Some s, mx, l) => Nat.eqb (an_maxrun s) mx && chk s 0%nat l
+  | (Some s, mx, l) => Nat.eqb (an_maxrun s) mx && chk s 0%%nat l
   | _ => false end.
 Definition cases := [%s].
 Definition bad := Eval vm_compute in length (filter (fun c => negb (ok c)) cases).
@@ -678,3 +678,14 @@ Print bad.
     if "bad = 0%nat" not in out.replace("\n", " "):
         chk.diverge("vm_compute-vs-extraction", "sample of %d histories" % len(items), out[-300:], "", "extracted OCaml model disagrees with vm_compute")
     return len(items)
+
+
+def realtime_stress(chk, prop_id):
+    """thorough tier extra: real-time run of the package's own stable tests under the race detector
+    (faketime and -race cannot be combined). A DATA RACE report in ants/ is a failing input."""
+    rc, out = common.sh(["go", "test", "-race", "-count=1", "-run", "TestPool_Send|TestPool_GetMultiTimes|TestPool_HandleTooLongTime", "./ants"],
+                        cwd=common.REPO, env=common.GOENV, timeout=900)
+    chk.cov["race_stress"] = "go test -race ./ants (3 stable tests): rc=%d" % rc
+    if "DATA RACE" in out:
+        chk.monitor_fail("data-race", "go test -race -run 'TestPool_Send|TestPool_GetMultiTimes|TestPool_HandleTooLongTime' ./ants", out[-1500:],
+                         "race detector reports a data race in the ants package")
